@@ -197,6 +197,7 @@ def ref_edges(kernel, isa, model, flag_deps=False, mem=True):
             elif isinstance(d, MemoryOperand) and mem:
                 tr = Tracker()
                 tr.apply(a, isa)
+                tr.apply(a, isa, only_post=True)  # the store's own post-index write-back is seen by what follows
                 for j in range(i + 1, len(kernel)):
                     b = kernel[j]
                     tr.apply(b, isa)
